@@ -553,6 +553,53 @@ def modified_flag_shape(lib_src):
     return "true"
 
 
+def comment_blank_line_shape(comments_src):
+    """split_comment_lines: what happens to a line that consists of indentation only
+    (the scanning loop runs out of characters): `comment_start` keeps its initial value."""
+    body = re.sub(r"\s+", " ", strip_comments(fn_body(comments_src, "split_comment_lines", "fmt/src/comments.rs")))
+    need = [r"for line in comment\.lines\(\) \{", r"let mut i = 0;", r"let mut comment_start = ([^;]+);",
+            r"for \(start, _, ch\) in line\.char_indices\(\) \{ if i >= indentation \{ comment_start = start; break; \}",
+            r"match ch \{ ' ' => i \+= 1, '\\t' => i \+= tab_size, _ => \{ comment_start = start; break; \} \}",
+            r"result\.push\(line\.get\(comment_start\.\.\)\.unwrap_or_default\(\)\.to_vec\(\)\);"]
+    pos = -1
+    for pat in need:
+        m = re.search(pat, body)
+        if not m or m.start() < pos:
+            raise TranslateError(f"split_comment_lines no longer has the modelled shape (`{pat}`)")
+        pos = m.start()
+    init = re.search(need[2], body).group(1).strip()
+    if init == "0": return "false"
+    if init == "line.len()": return "true"
+    raise TranslateError(f"split_comment_lines: initial value of comment_start not understood: {init}")
+
+
+def yr_fmt_shape(cli_src):
+    """how `yr fmt` (cli/src/commands/fmt.rs, exec_fmt) writes a file back."""
+    body = re.sub(r"\s+", " ", strip_comments(fn_body(cli_src, "exec_fmt", "cli/src/commands/fmt.rs")))
+    need = [r"let input = fs::read\(file_path\)\?;",
+            r"let file_modified = if check \{ formatter\.format\(input\.as_slice\(\), io::sink\(\)\)\? \} else \{",
+            r"if formatter\.format\(input\.as_slice\(\), &mut formatted\)\? \{",
+            r"io::copy\(&mut formatted, &mut output_file\)\?;",
+            r"if file_modified \{ modified_files\.push\(",
+            r"if !modified_files\.is_empty\(\) \{ .*process::exit\(1\) \}"]
+    pos = -1
+    for pat in need:
+        m = re.search(pat, body)
+        if not m or m.start() < pos:
+            raise TranslateError(f"exec_fmt: `yr fmt` no longer has the modelled shape (`{pat}`)")
+        pos = m.start()
+    m = re.search(r"let mut output_file = (.*?);", body)
+    if not m: raise TranslateError("exec_fmt: cannot find how the output file is opened")
+    how = m.group(1).replace(" ", "")
+    if how == "File::create(file_path)?":
+        return "true"
+    if re.fullmatch(r"OpenOptions::new\(\)(\.\w+\(true\))+\.open\(file_path\)\?", how):
+        flags = set(re.findall(r"\.(\w+)\(true\)", how))
+        if "write" not in flags or "append" in flags: raise TranslateError(f"exec_fmt: output file opened with {sorted(flags)}")
+        return "true" if "truncate" in flags else "false"
+    raise TranslateError(f"exec_fmt: the way the output file is opened is not understood: {m.group(1)[:80]}")
+
+
 def main():
     tok_src = src("fmt/src/tokens/mod.rs")
     proc_src = src("fmt/src/processor/mod.rs")
@@ -668,6 +715,12 @@ def main():
     out.append("")
     out.append("(* Formatter::format: `let modified = in_buf.ne(out_buf.get_ref());` ... `output.write_all(out_buf.get_ref())` ... `Ok(modified)` *)")
     out.append(f"Definition modified_is_byte_inequality : bool := {modified_flag_shape(lib_src)}.")
+    out.append("")
+    out.append("(* cli/src/commands/fmt.rs, exec_fmt: a modified file is written through a handle that truncates it (File::create) *)")
+    out.append(f"Definition yr_fmt_truncates : bool := {yr_fmt_shape(src('cli/src/commands/fmt.rs'))}.")
+    write_if_changed("FmtComments.v", "(* GENERATED by translate/gen_fmtrules.py from fmt/src/comments.rs -- do not edit. *)\n"
+        "(* split_comment_lines: a comment line made of indentation only is emptied (true) or kept as it is (false) *)\n"
+        f"Definition blank_comment_lines_stripped : bool := {comment_blank_line_shape(src('fmt/src/comments.rs'))}.\n")
     out.append("")
     write_if_changed("FmtRules.v", "\n".join(out))
 
